@@ -34,6 +34,7 @@ def fdefs(m, names):
 
 EXPLANATION += ' R11.10 no integer-literal power (negative, or >= 3) is taken of a quantity that stays an integer when the arguments are integers (numba types arithmetic by its arguments: 0 for a negative power, silent int64 wrap-around for a large one).'
 TECHNIQUE += '; syntactic type flow in numba-compiled kernels (integer-literal powers of integer-typed arguments)'
+EXPLANATION += ' R11.9 also with mixed shapes: an array spin rate with a scalar orbit and an array orbital frequency with a scalar spin rate (the entry point broadcasts the scalar side itself).'
 
 def run(chk):
     repo = Repo(chk.repo)
